@@ -5,7 +5,7 @@ cells, written in even phases (PUBLISH, own cell only, fresh immutable chains) a
 odd phases (TAKE). The model therefore runs thread after thread, phase after phase."""
 M = 1000000007
 OPS = {"NEW": 0, "LINK": 1, "UNLINK": 2, "DROP": 3, "CHURN": 4, "SUM": 5, "GCFULL": 6, "GCMINOR": 7, "YIELD": 8, "PUBLISH": 9,
-       "TAKE": 10, "LINKF": 11, "LOCKED_ALLOC": 12, "TEXT": 13, "SUMF": 14}
+       "TAKE": 10, "LINKF": 11, "LOCKED_ALLOC": 12, "TEXT": 13, "SUMF": 14, "FILEIO": 15}
 
 
 class Node:
@@ -134,6 +134,9 @@ def expected(script):
                         d.tlen = 2 * y
                 elif op == 14:
                     l.hash = (l.hash * 11 + l.checksum(l.foreign[x % 4])) % M
+                elif op == 15:
+                    ssum = sum(((i * 7 + tid + y) % 251) * (i % 13 + 1) for i in range(x))
+                    l.hash = (l.hash * 13 + ssum + x) % M
             for i in range(nslots):
                 l.hash = (l.hash * 5 + l.checksum(l.slots[i])) % M
         cells = new_cells
@@ -172,8 +175,10 @@ def generate(rng):
                     ops.append((8, 0, 0, 0))
                 elif r < 0.88:
                     ops.append((12, rng.choice([1, 30, 300]), 0, 0))
-                elif r < 0.93:
+                elif r < 0.91:
                     ops.append((13, rng.randrange(nslots), rng.choice([0, 1, 20, 90]), 0))
+                elif r < 0.94:
+                    ops.append((15, rng.choice([1, 64, 1000, 4096]), rng.getrandbits(40), 0))
                 else:
                     if p % 2 == 0:
                         ops.append((9, rng.choice([0, 1, 3, 10]), rng.choice([0, 2, 8]), 0))
